@@ -10,7 +10,7 @@ use neurons::objective::Function;
 
 pub fn meta(_ctx: &Ctx) -> Meta {
     Meta {
-        rule: "7 objectives x clamps {none,(-0.2,0.2),(-1,1),(0,0.5),(0.3,0.3),(-inf,0.2),(-0.2,inf),(-inf,inf)} x ranks {vector n<=3; 1x1xn, nx1x1, 1xnx1; 2x2x2; vectors of 9, 10, 17, 40, 100 and tensors 1x3x3, 3x3x3, 2x4x5 with every rotation of the pair list} x ALL tuples of (prediction,target) pairs over the in-domain alphabets incl. boundaries: regression {-2,-0.5,0,0.5,1,3}^2 (plus, in tuples of <= 2 pairs, the near-equal values {0.5, next float after 0.5, 0, -0, +-1e-8}), probabilistic predictions {0,1e-7,1e-6,0.25,0.5,1-1e-6,1} x targets {0,0.25,0.5,1}. Oracles: documented loss/gradient formulas (f64), gradient shape = prediction shape, clamped gradient = clamp(unclamped) bit-exact, CxHxW result = vector result bit-exact, dual-number derivative of the reference loss for AE/MSE/BCE/KL away from kinks and the eps-clamp, loss finite. Non-trivial = tuple with >=2 distinct pairs or a boundary value".into(),
+        rule: "7 objectives x clamps {none,(-0.2,0.2),(-1,1),(0,0.5),(0.3,0.3),(-inf,0.2),(-0.2,inf),(-inf,inf)} x ranks {vector n<=3; 1x1xn, nx1x1, 1xnx1; 2x2x2; vectors of 9, 10, 17, 40, 100 and tensors 1x3x3, 3x3x3, 2x4x5 with every rotation of the pair list} x ALL tuples of (prediction,target) pairs over the in-domain alphabets incl. boundaries: regression {-2,-0.5,0,0.5,1,3}^2 (plus, in tuples of <= 2 pairs, the near-equal values {0.5, next float after 0.5, 0, -0, +-1e-8, 1e-22, 1e-25, -1e-30} (differences whose square underflows)), probabilistic predictions {0,1e-7,1e-6,0.25,0.5,1-1e-6,1} x targets {0,0.25,0.5,1}. Oracles: documented loss/gradient formulas (f64), gradient shape = prediction shape, clamped gradient = clamp(unclamped) bit-exact, CxHxW result = vector result bit-exact, dual-number derivative of the reference loss for AE/MSE/BCE/KL away from kinks and the eps-clamp, loss finite. Non-trivial = tuple with >=2 distinct pairs or a boundary value".into(),
         bound: "tuples of n <= 3 pairs complete (thorough: n <= 4 on vectors); 2x2x2 and the larger shapes with all 36 / 28 rotations of the pair list".into(),
         exhaustive: true,
         assumptions: vec![
@@ -22,7 +22,7 @@ pub fn meta(_ctx: &Ctx) -> Meta {
 }
 
 const REG: [f32; 6] = [-2.0, -0.5, 0.0, 0.5, 1.0, 3.0];
-const NEAR: [f32; 6] = [0.5, 0.500_000_06, 0.0, -0.0, 1.0e-8, -1.0e-8];
+const NEAR: [f32; 9] = [0.5, 0.500_000_06, 0.0, -0.0, 1.0e-8, -1.0e-8, 1.0e-22, 1.0e-25, -1.0e-30];
 const PP: [f32; 7] = [0.0, 1.0e-7, 1.0e-6, 0.25, 0.5, 0.999999, 1.0];
 const PT: [f32; 4] = [0.0, 0.25, 0.5, 1.0];
 const CLAMPS: [Option<(f32, f32)>; 8] = [
